@@ -231,10 +231,17 @@ Proof.
   unfold pm_is_service. rewrite (H o) by (left; reflexivity). reflexivity.
 Qed.
 
-Lemma pm_svok_last inv acc : (forall o, In o acc -> In o inv) -> pm_svok inv (pm_last_service acc).
+Lemma pm_frame_sv_in l s : pm_frame_sv l = Some s -> In s l /\ po_type s = PmService.
+Proof. unfold pm_frame_sv. apply pm_last_service_in. Qed.
+Lemma pm_frame_sv_none l : (forall o, In o l -> po_type o = PmHost) -> pm_frame_sv l = None.
+Proof. unfold pm_frame_sv. apply pm_last_service_none. Qed.
+Lemma pm_frame_sv_nil : pm_frame_sv [] = None.
+Proof. reflexivity. Qed.
+
+Lemma pm_svok_last inv acc : (forall o, In o acc -> In o inv) -> pm_svok inv (pm_frame_sv acc).
 Proof.
-  intros H. destruct (pm_last_service acc) as [s|] eqn:E; [|left; reflexivity].
-  right. exists s. apply pm_last_service_in in E. destruct E. auto.
+  intros H. destruct (pm_frame_sv acc) as [s|] eqn:E; [|left; reflexivity].
+  right. exists s. apply pm_frame_sv_in in E. destruct E. auto.
 Qed.
 
 Section Names.
@@ -243,12 +250,12 @@ Section Names.
   Lemma pm_name_one_ok t n acc o :
     (forall x, In x acc -> In x inv) ->
     pm_name_one pf inv t n acc = inr o ->
-    pm_ret pf inv o /\ po_type o = t /\ po_name o = n /\ pm_eval_opt pf (pm_last_service acc) o = PmT.
+    pm_ret pf inv o /\ po_type o = t /\ po_name o = n /\ pm_eval_opt pf (pm_frame_sv acc) o = PmT.
   Proof.
     intros Hacc. unfold pm_name_one. destruct (pm_lookup inv t n) as [o'|] eqn:L; [|discriminate].
-    destruct (pm_eval_opt pf (pm_last_service acc) o') eqn:E; try discriminate.
+    destruct (pm_eval_opt pf (pm_frame_sv acc) o') eqn:E; try discriminate.
     intros H. inversion H; subst. apply pm_lookup_some in L. destruct L as (A & B & C).
-    repeat split; auto. exists (pm_last_service acc). split; [apply pm_svok_last; assumption|assumption].
+    repeat split; auto. exists (pm_frame_sv acc). split; [apply pm_svok_last; assumption|assumption].
   Qed.
 
   (* P: any property of (state-at-evaluation, object) that we want for all result elements *)
@@ -347,7 +354,7 @@ Qed.
 Lemma pm_filter_targets_ok fast u perm tys q inv objs c :
   pm_filter_targets fast u perm tys q inv = (c, PmOk objs) ->
   exists pf res, pm_check_permission u perm = Some pf /\ pm_by_names pf inv q tys [] = inr res /\
-    (objs = res \/ exists t l, pm_by_filter fast pf (pm_last_service res) inv t (pq_filter q) (pq_fvars q) = inr l
+    (objs = res \/ exists t l, pm_by_filter fast pf (pm_frame_sv res) inv t (pq_filter q) (pq_fvars q) = inr l
                                /\ In t tys /\ objs = res ++ l).
 Proof.
   unfold pm_filter_targets. destruct (pm_check_permission u perm) as [pf|]; [|discriminate].
@@ -356,12 +363,12 @@ Proof.
   - destruct (pq_type q) as [qt|]; [|discriminate].
     destruct qt; try discriminate; cbn [pm_qtype_in].
     + destruct (existsb (pm_type_eqb PmHost) tys) eqn:E; [|discriminate].
-      destruct (pm_by_filter fast pf (pm_last_service res) inv PmHost (pq_filter q) (pq_fvars q)) as [e|l] eqn:BF; [discriminate|].
+      destruct (pm_by_filter fast pf (pm_frame_sv res) inv PmHost (pq_filter q) (pq_fvars q)) as [e|l] eqn:BF; [discriminate|].
       intros H. inversion H; subst. exists pf, res. split; [reflexivity|]. split; [exact N|]. right.
       exists PmHost, l. split; [assumption|]. split; [|reflexivity].
       apply existsb_exists in E. destruct E as (x & Hx & Hex). apply pm_type_eqb_eq in Hex. subst. assumption.
     + destruct (existsb (pm_type_eqb PmService) tys) eqn:E; [|discriminate].
-      destruct (pm_by_filter fast pf (pm_last_service res) inv PmService (pq_filter q) (pq_fvars q)) as [e|l] eqn:BF; [discriminate|].
+      destruct (pm_by_filter fast pf (pm_frame_sv res) inv PmService (pq_filter q) (pq_fvars q)) as [e|l] eqn:BF; [discriminate|].
       intros H. inversion H; subst. exists pf, res. split; [reflexivity|]. split; [exact N|]. right.
       exists PmService, l. split; [assumption|]. split; [|reflexivity].
       apply existsb_exists in E. destruct E as (x & Hx & Hex). apply pm_type_eqb_eq in Hex. subst. assumption.
@@ -380,7 +387,7 @@ Proof.
   destruct Hobjs as [->|(t & l & Hbf & Ht & ->)]; [auto|].
   apply in_app_or in Ho. destruct Ho as [Ho|Ho]; [auto|].
   destruct (pm_by_filter_ret _ _ _ _ _ _ _ _ Hbf o Ho) as (A & B & C).
-  split; [assumption|]. exists (pm_last_service res). split; [|assumption].
+  split; [assumption|]. exists (pm_frame_sv res). split; [|assumption].
   apply pm_svok_last. intros x Hx. apply Hres in Hx. destruct Hx. assumption.
 Qed.
 
@@ -403,7 +410,7 @@ Lemma pm_by_names_clean pf inv q tys res :
   pm_sig_stale tys q = false ->
   pm_by_names pf inv q tys [] = inr res ->
   (forall x, In x res -> pm_ret_clean pf inv x) /\
-  (pm_type_in PmHost tys = false \/ pm_last_service res = None).
+  (pm_type_in PmHost tys = false \/ pm_frame_sv res = None).
 Proof.
   intros Hsig H. apply pm_sig_cases in Hsig.
   (* generalise over the suffix of tys still to process *)
@@ -429,7 +436,7 @@ Proof.
         unfold Q. split; [split; [assumption|]|split].
         - rewrite <- Hev. symmetry. apply pm_eval_opt_clean.
           destruct (po_type o) eqn:To; [|left; reflexivity]. right.
-          apply pm_last_service_none. intros x Hx. destruct (po_type x) eqn:Tx; [reflexivity|exfalso].
+          apply pm_frame_sv_none. intros x Hx. destruct (po_type x) eqn:Tx; [reflexivity|exfalso].
           apply Hacc0 in Hx. destruct Hx as (_ & Hxt & Hxs). rewrite Tx in *.
           (* a service in acc and a host being evaluated: contradicts ~signature *)
           subst t. destruct Hsig as [Hh|[Hs|(Hs1 & Hs2)]].
@@ -465,8 +472,8 @@ Proof.
   specialize (G tys (fun t Ht => Ht) [] res (fun x (Hx : In x []) => match Hx with end) H).
   split; [intros x Hx; apply G; assumption|].
   destruct (pm_type_in PmHost tys) eqn:Hh; [right|left; reflexivity].
-  destruct (pm_last_service res) as [s|] eqn:Ls; [exfalso|reflexivity].
-  apply pm_last_service_in in Ls. destruct Ls as [Hs Ts]. destruct (G s Hs) as (_ & Hst & Hsn). rewrite Ts in *.
+  destruct (pm_frame_sv res) as [s|] eqn:Ls; [exfalso|reflexivity].
+  apply pm_frame_sv_in in Ls. destruct Ls as [Hs Ts]. destruct (G s Hs) as (_ & Hst & Hsn). rewrite Ts in *.
   destruct Hsig as [A|[A|(A1 & A2)]].
   - congruence.
   - unfold pm_type_in in A. assert (existsb (pm_type_eqb PmService) tys = true) by (apply existsb_exists; exists PmService; auto). congruence.
@@ -517,7 +524,7 @@ Proof.
   induction ns as [|m r IH]; intros acc Hin L Hno; [destruct Hin|]. cbn.
   destruct (pm_name_one pf inv t m acc) as [e|o'] eqn:E; [eauto|].
   destruct Hin as [->|Hin]; [|eauto].
-  unfold pm_name_one in E. rewrite L in E. destruct (pm_eval_opt pf (pm_last_service acc) o) eqn:Ev; try discriminate.
+  unfold pm_name_one in E. rewrite L in E. destruct (pm_eval_opt pf (pm_frame_sv acc) o) eqn:Ev; try discriminate.
   exfalso. eapply Hno. eassumption.
 Qed.
 
@@ -527,7 +534,7 @@ Lemma pm_names_type_denied pf inv q t n o acc :
 Proof.
   intros Hn L Hno. unfold pm_names_type.
   destruct Hn as [Hs|(ns & Hp & Hin)].
-  - rewrite Hs. unfold pm_name_one. rewrite L. destruct (pm_eval_opt pf (pm_last_service acc) o) eqn:Ev; eauto.
+  - rewrite Hs. unfold pm_name_one. rewrite L. destruct (pm_eval_opt pf (pm_frame_sv acc) o) eqn:Ev; eauto.
     exfalso. eapply Hno. eassumption.
   - rewrite Hp. destruct (match pm_q_single q t with None => inr acc | Some n0 => _ end) as [e|acc1]; [eauto|].
     eapply pm_name_list_denied; eassumption.
@@ -567,7 +574,7 @@ Lemma pm_names_type_single_clean pf inv q t n o :
   pm_q_single q t = Some n -> pm_lookup inv t n = Some o -> pm_eval_opt pf None o <> PmT ->
   exists e, pm_names_type pf inv q t [] = inl e.
 Proof.
-  intros Hs L Hno. unfold pm_names_type. rewrite Hs. unfold pm_name_one. rewrite L. cbn [pm_last_service].
+  intros Hs L Hno. unfold pm_names_type. rewrite Hs. unfold pm_name_one. rewrite L. rewrite pm_frame_sv_nil.
   destruct (pm_eval_opt pf None o); eauto. congruence.
 Qed.
 
@@ -599,7 +606,7 @@ Section Paths.
   Proof.
     unfold pm_filter_targets. rewrite Hperm. unfold pm_q_by_name.
     destruct (po_type o) eqn:T; cbn [pm_by_names]; unfold pm_names_type, pm_name_one, pm_q_single, pm_q_plural;
-      cbn [pq_host pq_service pq_hosts pq_services pm_name_list pm_last_service]; rewrite Hlook;
+      cbn [pq_host pq_service pq_hosts pq_services pm_name_list]; rewrite ?pm_frame_sv_nil; rewrite Hlook;
       destruct (pm_eval_opt pf None o); cbn; split; intros H; congruence.
   Qed.
 
@@ -609,7 +616,7 @@ Section Paths.
   Proof.
     unfold pm_filter_targets. rewrite Hperm. unfold pm_q_by_list.
     destruct (po_type o) eqn:T; cbn [pm_by_names]; unfold pm_names_type, pm_name_one, pm_q_single, pm_q_plural;
-      cbn [pq_host pq_service pq_hosts pq_services pm_name_list pm_last_service]; unfold pm_name_one; cbn [pm_last_service]; rewrite Hlook;
+      cbn [pq_host pq_service pq_hosts pq_services pm_name_list]; unfold pm_name_one; rewrite ?pm_frame_sv_nil; rewrite Hlook;
       destruct (pm_eval_opt pf None o); cbn; split; intros H; congruence.
   Qed.
 
@@ -635,7 +642,7 @@ Section Paths.
     unfold pm_filter_targets. rewrite Hperm. unfold pm_q_by_type.
     cbn [pm_by_names]. unfold pm_names_type, pm_q_single, pm_q_plural.
     destruct (po_type o); cbn [pq_host pq_service pq_hosts pq_services pq_type pq_filter pq_fvars pm_is_nil pm_qtype_of];
-      rewrite orb_true_r; cbn [pm_qtype_in existsb pm_type_eqb orb snd pm_last_service app]; reflexivity.
+      rewrite orb_true_r; cbn [pm_qtype_in existsb pm_type_eqb orb snd app]; rewrite pm_frame_sv_nil; reflexivity.
   Qed.
 
   (* by type (no user filter) and by type + user filter on the slow path *)
